@@ -126,7 +126,7 @@ pub type DocumentNodesMap = (Key, NodesMap);
 pub type Lang = String;
 pub type LibraryUrl = String;
 
-pub type Level = u8;
+pub type Level = usize;
 pub type Title = String;
 
 pub trait InlinesContext: Copy {
